@@ -216,6 +216,10 @@ Fixpoint enc_run (fuel : nat) (block : Z) (cs : list call) (s : st) : list V :=
       end
   end.
 
+(* run-length coded bytes [(byte, count); ...] for long bodies *)
+Definition expand (segs : list (Z * Z)) : list Z :=
+  flat_map (fun p => repeat (fst p) (Z.to_nat (snd p))) segs.
+
 (* kind 0 = read, otherwise readline *)
 Definition mk_call (p : Z * Z) : call :=
   if fst p =? 0 then CRead (snd p) else CReadline (snd p).
